@@ -1,8 +1,9 @@
 """Translator for C07: numeric constants of pyrex/askaryan.py -> lean/PyrexVerif/Gen/AskaryanConstants.lean
 
 For every function the Lean model `twin/Askaryan.body` follows, the source is re-read with `ast`,
-docstrings are dropped, every *float* literal is replaced by a placeholder (in source order) and the
-remaining text (`ast.unparse`) is compared with a recorded fingerprint of the shape the model was
+docstrings, `logger.*` calls and the text of error / warning messages are dropped, locally bound names are
+alpha-renamed in order of first appearance, every *float* literal is replaced by a placeholder (in source order)
+and the remaining text (`ast.unparse`) is compared with a recorded fingerprint of the shape the model was
 written against.  A changed shape is an extraction error (fails closed: the model may no longer
 describe the code); a changed literal regenerates the constant, so the theorems that need it
 (positivity of widths and denominators, ...) are re-checked and the Float twin follows the code.
@@ -50,16 +51,16 @@ NAMES = {
 # (`python askaryan_consts.py --record` prints fresh values when the model is deliberately re-written
 # for a new source shape; `--show` prints the placeholder-substituted text)
 SHAPES_RECORDED = {
-    "ZHSAskaryanSignal.__init__": "fc10aba89347a3aa5f6870b9",
-    "AVZAskaryanSignal.__init__": "759c64527fb24d924fbaf07c",
-    "ARZAskaryanSignal.__init__": "e8617175bd1d24bbbe409713",
+    "ZHSAskaryanSignal.__init__": "f4b582b46fe7fcdadc8a70be",
+    "AVZAskaryanSignal.__init__": "04db80f65fc999db97335776",
+    "ARZAskaryanSignal.__init__": "59f8eed62d5ca9bd0ae1d78a",
     "ARZAskaryanSignal.oncone_range": "7fb007e34fd0a09461b7935a",
-    "ARZAskaryanSignal.shower_signal": "f610b4df9147e8f53a7add14",
-    "ARZAskaryanSignal.em_shower_RAC": "a5d5166b8dba894c5666fed0",
-    "ARZAskaryanSignal.had_shower_RAC": "92f009c4b0c86af293ac8524",
-    "ARZAskaryanSignal.em_shower_profile": "20fff1c5eaf3a47ae02fb514",
-    "ARZAskaryanSignal.had_shower_profile": "ba92484757316922e0fd27ae",
-    "ARZAskaryanSignal.max_length": "389ec42084ba143641e99f92",
+    "ARZAskaryanSignal.shower_signal": "6f66690437afade5ac1d2046",
+    "ARZAskaryanSignal.em_shower_RAC": "5ef23a02e1bd014120ab4235",
+    "ARZAskaryanSignal.had_shower_RAC": "6a581f6fd2c9271f45bf0b35",
+    "ARZAskaryanSignal.em_shower_profile": "05ed210f06e77e5071488106",
+    "ARZAskaryanSignal.had_shower_profile": "dff8c0af863435fd4b56835b",
+    "ARZAskaryanSignal.max_length": "5a5247d6486a26d73988cf6a",
 }
 
 
@@ -191,6 +192,79 @@ def _find(tree, cls, member):
     raise ValueError("askaryan.py: %s.%s not found" % (cls, member))
 
 
+class _Cosmetic(ast.NodeTransformer):
+    """removes what cannot change behaviour: `logger.<level>(...)` statements, the text of exception / warning
+    messages (string literals inside `raise` statements and `warnings.warn` calls)"""
+    def visit_Expr(self, node):
+        v = node.value
+        if (isinstance(v, ast.Call) and isinstance(v.func, ast.Attribute) and isinstance(v.func.value, ast.Name)
+                and v.func.value.id == "logger"):
+            return None
+        return self.generic_visit(node)
+
+    def _blank(self, node):
+        for n in ast.walk(node):
+            if isinstance(n, ast.Constant) and isinstance(n.value, str):
+                n.value = ""
+        return node
+
+    def visit_Raise(self, node):
+        return self._blank(node)
+
+    def visit_Call(self, node):
+        f = node.func
+        if isinstance(f, ast.Attribute) and isinstance(f.value, ast.Name) and f.value.id == "warnings" and f.attr == "warn":
+            return self._blank(node)
+        return self.generic_visit(node)
+
+
+def _alpha_rename(node):
+    """names *bound* inside the function (parameters, assignment / loop / with targets, nested function names) are
+    replaced by `_v0, _v1, ...` in order of first appearance in the source; globals, builtins, attributes and
+    keyword names stay as they are.  Alpha-equivalent functions thereby get the same fingerprint, and any change of
+    which variable is used where changes it."""
+    bound = set()
+    for n in ast.walk(node):
+        if isinstance(n, ast.arg):
+            bound.add(n.arg)
+        elif isinstance(n, ast.Name) and isinstance(n.ctx, (ast.Store, ast.Del)):
+            bound.add(n.id)
+        elif isinstance(n, ast.FunctionDef) and n is not node:
+            bound.add(n.name)
+    bound.discard("self")
+    order = {}
+
+    class Ren(ast.NodeTransformer):
+        def _new(self, name):
+            if name in bound:
+                if name not in order:
+                    order[name] = "_v%d" % len(order)
+                return order[name]
+            return name
+
+        def visit_FunctionDef(self, n):
+            if n is not node:
+                n.name = self._new(n.name)
+            self.generic_visit(n)
+            return n
+
+        def visit_arg(self, n):
+            n.arg = self._new(n.arg)
+            return n
+
+        def visit_Name(self, n):
+            n.id = self._new(n.id)
+            return n
+    # a source-order pass first, so that the numbering does not depend on the field order of the AST classes
+    for n in sorted((m for m in ast.walk(node) if isinstance(m, (ast.Name, ast.arg)) or
+                     (isinstance(m, ast.FunctionDef) and m is not node)),
+                    key=lambda m: (m.lineno, m.col_offset)):
+        name = n.id if isinstance(n, ast.Name) else (n.arg if isinstance(n, ast.arg) else n.name)
+        if name in bound and name not in order:
+            order[name] = "_v%d" % len(order)
+    return Ren().visit(node)
+
+
 def shapes_and_constants(repo):
     path = os.path.join(repo, "pyrex", "askaryan.py")
     tree = ast.parse(open(path).read())
@@ -199,6 +273,13 @@ def shapes_and_constants(repo):
         node = _strip_docstrings(_find(tree, cls, member))
         sub = _Sub()
         node = sub.visit(node)
+        if isinstance(node, ast.FunctionDef):
+            node = _Cosmetic().visit(node)
+            for n in ast.walk(node):       # a block emptied of its logger call
+                for field in ("body", "orelse", "finalbody"):
+                    if hasattr(n, field) and isinstance(getattr(n, field), list) and field == "body" and not getattr(n, field):
+                        setattr(n, field, [ast.Pass()])
+            node = _alpha_rename(node)
         text = ast.unparse(ast.fix_missing_locations(node))
         out[(cls, member)] = (hashlib.sha256(text.encode()).hexdigest()[:24], sub.consts, text)
     return out
